@@ -67,6 +67,10 @@ class Models:
             return mk_duration(0, 0)
         if c in ("std::time::Duration::MAX", "core::time::Duration::MAX"):
             return dur_ns(DMAX)
+        m = re.match(r"^<.* as std::mem::SizedTypeProperties>::(ALIGN|SIZE|IS_ZST)$", c)
+        if m:
+            # only used by rustc's debug-profile pointer checks (alignment / null) on Box internals
+            return {"ALIGN": 8, "SIZE": 8, "IS_ZST": False}[m.group(1)]
         m = re.match(r"^<(u\d+|usize) as bitflags::Bits>::(EMPTY|ALL)$", c)
         if m:
             return 0 if m.group(2) == "EMPTY" else (1 << int_width(m.group(1))) - 1
@@ -1079,10 +1083,7 @@ def _vec_first(it, args, dty, func):
 
 @model("std::vec::from_elem", "alloc::vec::from_elem")
 def _from_elem(it, args, dty, func):
-    n = args[1]
-    n = simp(n)
-    if not isinstance(n, int):
-        raise Unsupported("symbolic vec![x; n] length")
+    n = concretize(it, args[1], 300, "vec![x; n] length")
     return Seq("vec", [clone_val(args[0]) for _ in range(n)], elem_type(dty))
 
 
@@ -1907,3 +1908,94 @@ def _copy_to_bytes(it, args, dty, func):
     out = Seq("bytes", list(items[:n]))
     adv(n)
     return out
+
+
+def concretize(it, v, limit, what):
+    """fork over the feasible concrete values 0..limit of a symbolic size; larger is out of the encoder's reach"""
+    v = simp(v)
+    if isinstance(v, int):
+        return v
+    ch = it.ctx.switch(v, list(range(limit + 1)))
+    if ch == "otherwise":
+        raise Unsupported(f"symbolic {what} may exceed {limit}")
+    return ch
+
+
+@model_re(r"^core::str::<impl str>::(trim_end_matches|trim_start_matches|trim|trim_end|trim_start)$")
+def _str_trim(it, args, dty, func):
+    return args[0]          # only ever used to prettify log/error text
+
+
+# --- xs_foundation::VecU8<T>: Vec with u8 length; documented panics at 255 (source: xs_foundation-0.4.10
+#     src/collections/vec/u8/mod.rs: with_capacity asserts cap <= 255, push/insert panic at len == 255) ---
+VU8 = "xs_foundation::collections::vec::VecU8::"
+
+
+@model(VU8 + "new")
+def _vu8_new(it, args, dty, func):
+    return Seq("vecu8", [], "?")
+
+
+@model(VU8 + "with_capacity")
+def _vu8_with_capacity(it, args, dty, func):
+    c = concretize(it, args[0], 300, "VecU8 capacity")
+    if c > 255:
+        raise Panic("assert", "capacity overflow u8 (max 255)")
+    return Seq("vecu8", [], "?")
+
+
+@model(VU8 + "push")
+def _vu8_push(it, args, dty, func):
+    s = seq_of(args[0])
+    if len(s.f) == 255:
+        raise Panic("panic", "VecU8<T> maximum length (255) exceeded")
+    s.f.append(args[1])
+    return UNIT
+
+
+@model(VU8 + "insert")
+def _vu8_insert(it, args, dty, func):
+    s = seq_of(args[0])
+    i = concretize(it, args[1], 300, "VecU8 insert index")
+    if i > len(s.f):
+        raise Panic("assert", "insertion index out of bounds")
+    if len(s.f) == 255:
+        raise Panic("panic", "VecU8<T> maximum length (255) exceeded on insert")
+    s.f.insert(i, args[2])
+    return UNIT
+
+
+@model(VU8 + "remove")
+def _vu8_remove(it, args, dty, func):
+    s = seq_of(args[0])
+    i = concretize(it, args[1], 300, "VecU8 remove index")
+    if i >= len(s.f):
+        raise Panic("assert", "removal index out of bounds")
+    return s.f.pop(i)
+
+
+@model(VU8 + "pop")
+def _vu8_pop(it, args, dty, func):
+    s = seq_of(args[0])
+    return some(s.f.pop()) if s.f else none()
+
+
+@model(VU8 + "len")
+def _vu8_len(it, args, dty, func):
+    return len(seq_of(args[0]).f)
+
+
+@model(VU8 + "is_empty")
+def _vu8_is_empty(it, args, dty, func):
+    return len(seq_of(args[0]).f) == 0
+
+
+@model(VU8 + "iter", VU8 + "iter_mut")
+def _vu8_iter(it, args, dty, func):
+    return Agg("{iter}", [as_slice(args[0]), 0])
+
+
+@model(VU8 + "clear")
+def _vu8_clear(it, args, dty, func):
+    seq_of(args[0]).f.clear()
+    return UNIT
